@@ -29,6 +29,7 @@ GENERATOR = {
     "residuals": "each in [0, 0.6], sum < 0.95, incl. zeros",
     "end_points": "[0, 1] incl. 0 and 1",
     "records_per_call": "1..60",
+    "record field order": "rotates through (So,Sw,Sg), (So,Sg,Sw), (Sg,Sw,So), (Sw,So,Sg)",
 }
 ASSUMPTIONS = [
     "icontract postcondition is evaluated on every call that goes through a bluebonnet module binding",
@@ -148,11 +149,18 @@ def generate(ck):
             descs.append({"kind": "twophase", "params": p, "Sw": swc * frac})
             if swc < 0.9:
                 descs.append({"kind": "twophase-reject", "params": p, "Sw": swc + float(rng.choice([1e-6, 1e-2, 0.1]))})
+    for k, d in enumerate(descs):
+        d["order"] = k % 4  # field order of the saturation records, see ORDERS
     return descs
 
 
-def _records(sats):
-    a = np.zeros(len(sats), dtype=[("So", "f8"), ("Sw", "f8"), ("Sg", "f8")])
+ORDERS = (("So", "Sw", "Sg"), ("So", "Sg", "Sw"), ("Sg", "Sw", "So"), ("Sw", "So", "Sg"))
+
+
+def _records(sats, order=0):
+    """Saturation records; the phases are identified by FIELD NAME, whatever the field order
+    (the docstring's own order is So, Sg, Sw; DataFrame.to_records follows the column order)."""
+    a = np.zeros(len(sats), dtype=[(n, "f8") for n in ORDERS[order % len(ORDERS)]])
     s = np.asarray(sats, dtype=float).reshape(-1, 3)
     a["So"], a["Sw"], a["Sg"] = s[:, 0], s[:, 1], s[:, 2]
     return a
@@ -194,7 +202,7 @@ def run_case(ck, desc):
     EVENTS.clear()
     with TRAP:
         if kind == "records":
-            relative_permeabilities(_records(desc["sats"]), params)
+            relative_permeabilities(_records(desc["sats"], desc.get("order", 0)), params)
             mob = judge_events(ck, desc)
             return mob > 0, {"mobile_values": mob}
         if kind == "ladder":
@@ -205,7 +213,7 @@ def run_case(ck, desc):
             rest = 1 - s[:, ph]
             s[:, others[0]] = rest * desc["split"]
             s[:, others[1]] = rest - s[:, others[0]]
-            res = relative_permeabilities(_records(s), params)
+            res = relative_permeabilities(_records(s, desc.get("order", 0)), params)
             k = np.asarray(res[NAMES[ph]], dtype=float)
             mob = judge_events(ck, desc)
             if np.all(np.isfinite(k)):
@@ -216,7 +224,7 @@ def run_case(ck, desc):
             return mob > 0, {"mobile_values": mob, "k_first_last": [k[0], k[-1]]}
         if kind in ("reject-param", "reject-sum"):
             try:
-                relative_permeabilities(_records(desc["sats"]), params)
+                relative_permeabilities(_records(desc["sats"], desc.get("order", 0)), params)
             except Exception as e:  # noqa: BLE001
                 ck.count(f"rejections.{type(e).__name__}")
                 EVENTS.clear()
